@@ -302,7 +302,11 @@ func compare(what string, a, b outcome) *vk.Verdict {
 		sort.Strings(sa)
 		sort.Strings(sb)
 		if strings.Join(sa, "\x00") == strings.Join(sb, "\x00") {
-			return vk.Bad("error-order", "%s: the same %d errors are reported in a different order:\n A: %s\n B: %s", what, len(a.Errs), strings.Join(a.Errs, " | "), strings.Join(b.Errs, " | "))
+			cls := "error-order"
+			if strings.Join(notInGoFiles(a.Errs), "\x00") == strings.Join(notInGoFiles(b.Errs), "\x00") {
+				cls = "error-order:go-files" // only errors located in .go files change places
+			}
+			return vk.Bad(cls, "%s: the same %d errors are reported in a different order:\n A: %s\n B: %s", what, len(a.Errs), strings.Join(a.Errs, " | "), strings.Join(b.Errs, " | "))
 		}
 		return vk.Bad("error-set", "%s: different errors are reported:\n A (%d): %s\n B (%d): %s", what, len(a.Errs), strings.Join(a.Errs, " | "), len(b.Errs), strings.Join(b.Errs, " | "))
 	}
@@ -310,6 +314,18 @@ func compare(what string, a, b outcome) *vk.Verdict {
 		return vk.Bad("output-differs", "%s: generated Go differs (%d vs %d bytes); %s", what, len(a.Go), len(b.Go), diffAt(a.Go, b.Go))
 	}
 	return nil
+}
+
+// notInGoFiles drops the errors located in a .go file ("/foo/name.go:line:col: …").
+func notInGoFiles(errs []string) []string {
+	var out []string
+	for _, e := range errs {
+		if i := strings.Index(e, ".go:"); i > 0 && !strings.ContainsAny(e[:i], " \t") {
+			continue
+		}
+		out = append(out, e)
+	}
+	return out
 }
 
 func determinism(c Case) (*vk.Verdict, info) {
@@ -331,14 +347,22 @@ func determinism(c Case) (*vk.Verdict, info) {
 		}
 	}
 	if c.Workers {
-		for w := 0; w < 3; w++ {
-			outs, err := runWorker([]Case{c})
-			if err != nil {
-				in.infra = err.Error()
+		type res struct {
+			outs []outcome
+			err  error
+		}
+		ch := make([]chan res, 3)
+		for w := range ch {
+			ch[w] = make(chan res, 1)
+			go func(ch chan res) { outs, err := runWorker([]Case{c}); ch <- res{outs, err} }(ch[w])
+		}
+		for w := range ch {
+			r := <-ch[w]
+			if r.err != nil {
+				in.infra = r.err.Error()
 				return nil, in
 			}
-			if v := compare(fmt.Sprintf("fresh process %d against this process", w+1), first, outs[0]); v != nil {
-				v.Class = "process:" + v.Class
+			if v := compare(fmt.Sprintf("fresh process %d against this process", w+1), first, r.outs[0]); v != nil {
 				return v, in
 			}
 		}
@@ -677,7 +701,6 @@ func TestPackages(t *testing.T) {
 		}
 		for i, o := range r.outs {
 			if v := compare(fmt.Sprintf("fresh batch process %d against the first process", w+1), batch[i].first, o); v != nil {
-				v.Class = "process:" + v.Class
 				c := cases[i]
 				c.Workers = true
 				vk.R.Check(t, "determinism", c, v)
